@@ -35,6 +35,11 @@ const consumptionSlack = 64 << 10
 // exactLength asks for the valid answer as it is, without padding.
 const exactLength = -2
 
+// atLeast(n) asks for the valid answer padded to n bytes, or as it is when it is longer than that.
+const atLeastBase = -1000
+
+func atLeast(n int64) int64 { return atLeastBase - n }
+
 func consumptionBound(cacheSize int) int64 {
 	return int64(max(cacheSize, client.DefaultMaxHttpResponseSize)) + consumptionSlack
 }
@@ -275,7 +280,7 @@ func cacheEntries(h *harness) []*entry {
 								continue
 							}
 							emit(input{data: []byte(fmt.Sprintf("cache=%d state=%s headers=%s body=%s(%d)", size, sn, hd.name, l.name, l.n)),
-								ops: []string{"len:" + l.name + "@/body", "state:" + sn + "@/cache", "headers:" + hd.name + "@/headers", fmt.Sprintf("cache-size:%d@/cache", size)},
+								ops:  []string{"len:" + l.name + "@/body", "state:" + sn + "@/cache", "headers:" + hd.name + "@/headers", fmt.Sprintf("cache-size:%d@/cache", size)},
 								seed: "small-cacheable", aux: cacheCase{size, sn, states[sn], hd, l.name, l.n}})
 						}
 					}
@@ -321,8 +326,11 @@ func cacheEntries(h *harness) []*entry {
 		}}
 
 	// ---- did:web resolution through StrictHTTPClient + cache -------------------------------------------------------------------------------
-	docFor := func(id string, n int64) (bodySpec, bool) {
-		doc := []byte(webDocSeed(id))
+	// docFor pads the valid answer to n bytes with insignificant whitespace (after its first byte); shorter n truncates it. atLeast(n) never truncates.
+	docFor := func(doc []byte, n int64) (bodySpec, bool) {
+		if n <= atLeastBase {
+			n = max(atLeastBase-n, int64(len(doc)))
+		}
 		switch {
 		case n == exactLength || n >= 0 && n <= int64(len(doc))+1 && n >= int64(len(doc))-1:
 			return bodyOf(doc), true
@@ -331,7 +339,6 @@ func cacheEntries(h *harness) []*entry {
 		case n < int64(len(doc)):
 			return bodyOf(doc[:n]), false
 		}
-		// valid document, padded with insignificant whitespace after the opening brace
 		return bodySpec{head: doc[:1], fill: []byte(" "), fillLen: n - int64(len(doc)), tail: doc[1:]}, n <= client.DefaultMaxHttpResponseSize
 	}
 	docLen := int64(len(webDocSeed("did:web:cache-0000.didweb.example.com")))
@@ -379,7 +386,7 @@ func cacheEntries(h *harness) []*entry {
 								st = "several"
 							}
 							emit(input{data: []byte(fmt.Sprintf("cache=%d state=%s headers=%s body=%s(%d)", size, st, hd.name, l.name, l.n)),
-								ops: []string{"len:" + l.name + "@/body", "state:" + st + "@/cache", "headers:" + hd.name + "@/headers", fmt.Sprintf("cache-size:%d@/cache", size)},
+								ops:  []string{"len:" + l.name + "@/body", "state:" + st + "@/cache", "headers:" + hd.name + "@/headers", fmt.Sprintf("cache-size:%d@/cache", size)},
 								seed: "valid", aux: userCase{size, filled, hd, l.name, l.n}})
 						}
 					}
@@ -404,7 +411,7 @@ func cacheEntries(h *harness) []*entry {
 				if parsed := did.MustParseDID(id); len(parsed.ID) > len(host) {
 					url = "https://" + host + "/" + parsed.ID[len(host)+1:] + "/did.json"
 				}
-				body, ok := docFor(id, n)
+				body, ok := docFor([]byte(webDocSeed(id)), n)
 				hdr := withTag(hd.header, url)
 				hdr.Set("Content-Type", "application/did+json")
 				srv.set(url, hostileResp{status: 200, header: hdr, body: body, noLength: n == -1})
@@ -422,7 +429,7 @@ func cacheEntries(h *harness) []*entry {
 			if c.filled {
 				for i, hd := range []cacheHeader{cacheHeaders()[2], cacheHeaders()[0], cacheHeaders()[1]} {
 					id := fmt.Sprintf("did:web:%s:pre%d", host, i)
-					serve(id, hd, max(int64(c.maxBytes/4), docLen+8))
+					serve(id, hd, atLeast(min(int64(c.maxBytes/4), 512<<10)))
 					pre = append(pre, id)
 					if _, err := resolve(id); err != nil {
 						return fmt.Errorf("while filling the cache: %w", err)
@@ -471,15 +478,15 @@ func cacheEntries(h *harness) []*entry {
 	zeros := gzB64(make([]byte, 16*1024))
 	listFor := func(url string, n int64) (bodySpec, bool) {
 		body := []byte(mustJSON(compact(slListTree(url, "future", "revocation", zeros))))
-		switch {
-		case n == exactLength || n >= 0 && n <= int64(len(body))+1 && n >= int64(len(body))-1:
-			return bodyOf(body), true
-		case n < 0:
+		if n == -1 {
 			return bodySpec{fill: []byte(" "), fillLen: -1}, false
-		case n < int64(len(body)):
-			return bodyOf(body[:n]), false
 		}
-		return bodySpec{fill: []byte(" "), fillLen: n - int64(len(body)), tail: body}, n <= client.DefaultMaxHttpResponseSize
+		// the JSON string, with insignificant whitespace in front of it
+		spec, ok := docFor(body, n)
+		if spec.fillLen > 0 {
+			spec = bodySpec{fill: []byte(" "), fillLen: spec.fillLen, tail: body}
+		}
+		return spec, ok
 	}
 	listLen := int64(len(mustJSON(compact(slListTree("https://cache-0000.status.example.com/list/target", "future", "revocation", zeros)))))
 	var list *entry
@@ -512,7 +519,7 @@ func cacheEntries(h *harness) []*entry {
 			var pre []string
 			if c.filled {
 				for i, hd := range []cacheHeader{cacheHeaders()[2], cacheHeaders()[0], cacheHeaders()[1]} {
-					u, _ := serve(fmt.Sprintf("pre%d", i), hd, max(int64(c.maxBytes/4), listLen+8))
+					u, _ := serve(fmt.Sprintf("pre%d", i), hd, atLeast(min(int64(c.maxBytes/4), 512<<10)))
 					pre = append(pre, u)
 					if err := verify(u); err != nil {
 						return fmt.Errorf("while filling the cache: %w", err)
